@@ -320,6 +320,17 @@ def boundary_strings(n):
 GENERIC = ["", "a", "é", "ab", "abc", "日本", "A", " a", "a ", "0", "null", "\U0001F600"]
 
 
+def escape_variants(m):
+    """strings a faulty template could confuse with the member m: format-string escapes of braces / percent /
+    backslash / quotes (and their inverses), trimmed / padded, case-folded, doubled"""
+    out = [m.replace("{", "{{").replace("}", "}}"), m.replace("{{", "{").replace("}}", "}"),
+           m.replace("%", "%%"), m.replace("%%", "%"), m.replace("\\", "\\\\"), m.replace("\\\\", "\\"),
+           m.replace('"', '\\"'), m.replace('\\"', '"'), m.replace("'", "\\'"),
+           m.strip(), " " + m, m + " ", m + "\n", m.lower(), m.upper(), m.swapcase(), m.capitalize(), m.casefold(),
+           m + m, "{" + m + "}", '"' + m + '"']
+    return [x for x in out if x != m]
+
+
 def conv_types(gen):
     """[(type name, entry, probe strings)] for the string-validating named types of a module"""
     dump = gen["dump"]
@@ -348,6 +359,7 @@ def conv_types(gen):
                 all(v["details"]["k"] == "simple" for v in e["variants"]):
             for v in e["variants"]:
                 ps += [v["raw"], v["raw"] + "x", v["raw"].upper(), v["raw"][:-1], v["ident"] or ""]
+                ps += escape_variants(v["raw"])
             ps.append("__nonmember__")
             kind = "simple-enum"
         else:
@@ -363,18 +375,24 @@ def conv_types(gen):
 CONV_OPS = ["parse", "try_from_str", "try_from_string", "try_from_ref_string"]
 
 
-def agreement(ctx, w, indices):
-    """Direct check of the agreement clause on compiled code."""
+def agreement(ctx, w, indices, defs_of=None):
+    """Direct check of the agreement clause on compiled code: parse / try_from x3 / from_str agree with each other
+    and - for types that are a definition of the document - with the oracle."""
     reqs, keys = [], []
+    ostr = {}        # (i, type name) -> definition name
     missing = []
     ntypes = collections.Counter()
     for i in indices:
         if w.status[i] != "ok":
             continue
+        id2def = {tid: ref[2:] for ref, tid in w.gen[i]["dump"]["ref_to_id"].items() if ref.startswith("#/")}
+        name2id = {e2.get("name"): int(k2) for k2, e2 in w.gen[i]["dump"]["entries"].items() if e2.get("name")}
         for name, e, kind, ps in conv_types(w.gen[i]):
             if not w.has_arm(i, name, "de"):
                 continue
             ntypes[kind] += 1
+            if defs_of is not None and name2id.get(name) in id2def:
+                ostr[(i, name)] = id2def[name2id[name]]
             want = CONV_OPS if kind != "deny-string" else ["try_from_string"]
             for op in want:
                 if not w.has_arm(i, name, op):
@@ -387,9 +405,17 @@ def agreement(ctx, w, indices):
                     keys.append((i, name, kind, s, op))
     ans = w.query(reqs) if reqs else []
     table = {}
+    raws_of = {}
     for k, a in zip(keys, ans):
         if MUT == "agree_tryfrom_accepts" and k[4] == "try_from_str" and "err" in a:
             a = {"ok": k[3], "text": json.dumps(k[3])}
+        if MUT == "fromstr_escaped_arms" and k[2] == "simple-enum" and k[4] != "de":
+            # emulate: the FromStr match arms are the brace-ESCAPED strings of the Display template
+            if (k[0], k[1]) not in raws_of:
+                raws_of[(k[0], k[1])] = [v["raw"] for e2 in w.gen[k[0]]["dump"]["entries"].values()
+                                         if e2.get("name") == k[1] and e2["kind"] == "enum" for v in e2["variants"]]
+            hit = [m for m in raws_of[(k[0], k[1])] if k[3] == m.replace("{", "{{").replace("}", "}}")]
+            a = {"ok": hit[0], "text": json.dumps(hit[0])} if hit else {"err": "invalid value"}
         table.setdefault(k[:4], {})[k[4]] = a
     bad = []
     n = 0
@@ -406,6 +432,28 @@ def agreement(ctx, w, indices):
             if not same or ("ok" not in a and "err" not in a):
                 bad.append({"kind": "conversion-disagrees-with-deserialize", "type": name, "type_kind": kind, "string": s,
                             "op": op, op: a, "from_str(json)": de, "entry": e, "module": i})
+    # oracle: for a type that is a definition, membership / string constraints decide; every entry point must agree
+    if ostr:
+        batches, meta = [], []
+        for i in sorted({i for (i, _n) in ostr}):
+            qs, ks = [], []
+            for (i2, name, kind, s2), by_op in table.items():
+                if i2 == i and (i, name) in ostr:
+                    qs.append(({"$ref": "#/definitions/" + ostr[(i, name)]}, s2))
+                    ks.append((i2, name, kind, s2))
+            if qs:
+                batches.append(({"definitions": defs_of(i)}, qs))
+                meta.append(ks)
+        for ks, verd in zip(meta, oracle.classify(batches) if batches else []):
+            for key, valid in zip(ks, verd):
+                if valid is None:
+                    continue
+                for op, a in table[key].items():
+                    n += 1
+                    if ("ok" in a) != bool(valid):
+                        bad.append({"kind": "entry-point-disagrees-with-the-schema", "type": key[1], "type_kind": key[2],
+                                    "string": key[3], "op": op, op: a, "oracle_valid": valid,
+                                    "definition": ostr[(key[0], key[1])], "definitions": defs_of(key[0]), "module": key[0]})
     return n, bad, missing, dict(ntypes)
 
 
@@ -784,6 +832,35 @@ def merge_cases(seed, n):
     return out
 
 
+ODD_ENUMS = [
+    ["{id}", "plain"], ["{", "}"], ["{{", "}}"], ["{}", "{0}", "{self}"], ["a{b}c", "{{id}}", "{id}"],
+    ["100%", "%s", "%"], ["back\\slash", "\\n", "\\"], ["say \"hi\"", "it's", "\""], [" lead", "trail ", " both "],
+    ["", "x"], ["on", "ON", "On"], ["a", "A"], ["{", "ok"], ["}", "ok"], ["{{", "ok"], ["}}", "ok"], ["{}", "ok"], ["\u00e9", "\u65e5\u672c", "\u00df", "\u0130"], ["{:?}", "{:>5}", "a}b"],
+]
+
+
+def enum_case(name, vals):
+    return (name, {"defs": {"E": {"type": "string", "enum": vals},
+                            "H": {"type": "object", "properties": {"e": {"$ref": "#/definitions/E"}}, "required": ["e"]}},
+                   "expect": "any",       # typify refuses value sets whose identifiers collide: then there is no type
+                   "probes": [{"t": "E", "input": v} for v in vals] +
+                             [{"t": "E", "input": x} for v in vals for x in escape_variants(v)[:6]] +
+                             [{"t": "H", "input": {"e": vals[0]}}, {"t": "H", "input": {"e": escape_variants(vals[0])[0]}}]})
+
+
+def enum_corpus():
+    """string enums whose values stress the templates: braces (Display format string), percent, backslash, quotes,
+    leading / trailing spaces, the empty string, values differing only in case, multi-byte"""
+    return [enum_case("odd-enum-%d" % k, vals) for k, vals in enumerate(ODD_ENUMS)]
+
+
+def enum_cases(seed, n):
+    import random
+    rnd = random.Random(seed * 2750159 + 1)
+    pool = sorted({v for vals in ODD_ENUMS for v in vals} | {"red", "Dark-Blue", "a b", "x{y", "}z{", "{{a}}", "%{", "q\\{"})
+    return [enum_case("rand-enum-%d" % k, rnd.sample(pool, rnd.randrange(2, 5))) for k in range(n)]
+
+
 def builder_scan(gens):
     """struct_builder = true: every builder field is private, every setter converts
     through TryInto, so a constrained-type member can only be filled by a validated value"""
@@ -850,6 +927,9 @@ def classify_known(ctx, v):
         return False
     if f2(pos, v.get("position_value", inst)):
         return listed.get("unit-variant-of-string-enum-written-as-single-key-object-with-null")
+    # F9: derived type name reused for a different inline object schema
+    if v.get("position_name_reuse"):
+        return listed.get("inline-object-checked-against-another-schema-through-type-name-reuse")
     # F8: an anyOf of non-exclusive object branches is a struct of flattened Option subtypes; a value that
     # EVERY branch rejects is accepted with all subtypes None
     if v.get("ir_has_flattened_union") and isinstance(v.get("document"), dict) and \
@@ -940,8 +1020,9 @@ def only_missing_nullable_required(doc, defname, inst):
 
 
 def resolve_position(doc, schema, inst):
-    """deepest (subschema, subvalue, is_optional_member) that the oracle rejects on its own, for classification"""
-    best = (schema, inst, False)
+    """deepest (subschema, subvalue, is_optional_member, path) that the oracle rejects on its own, for classification"""
+    best = (schema, inst, False, ())
+    REJECTED_POSITIONS.clear()
     try:
         by_path = {}
         for path, s, v in schemagen.paths(doc, schema, inst):
@@ -951,10 +1032,54 @@ def resolve_position(doc, schema, inst):
                 parent = by_path.get(path[:-1]) if path else None
                 opt = bool(path) and isinstance(parent, dict) and isinstance(path[-1], str) and \
                     path[-1] in parent.get("properties", {}) and path[-1] not in parent.get("required", [])
-                best = (s, v, opt)
+                best = (s, v, opt, path)
+                REJECTED_POSITIONS.append((path, s, v))
     except Exception:  # noqa
         pass
     return best
+
+
+REJECTED_POSITIONS = []      # every position of the last resolve_position call that the oracle rejects on its own
+
+
+def inline_objects_by_key(doc):
+    """{property key: [inline object schemas declared for a property of that name anywhere in the document]}"""
+    out = {}
+
+    def walk(s, depth=0):
+        if depth > 14 or not isinstance(s, dict):
+            return
+        for k, ps in (s.get("properties") or {}).items():
+            if isinstance(ps, dict) and "$ref" not in ps and (ps.get("type") == "object" or "properties" in ps):
+                out.setdefault(k, []).append(ps)
+            walk(ps, depth + 1)
+        for key in ("items", "additionalProperties", "not"):
+            x = s.get(key)
+            if isinstance(x, dict):
+                walk(x, depth + 1)
+            elif isinstance(x, list):
+                for y in x:
+                    walk(y, depth + 1)
+        for key in ("oneOf", "anyOf", "allOf"):
+            for y in s.get(key) or []:
+                walk(y, depth + 1)
+    for d in doc.get("definitions", {}).values():
+        walk(d)
+    return out
+
+
+def name_reuse(doc, ps, pv, path):
+    """finding F9 (= C02-F3 seen from C05's side): the violating value sits at a property whose inline object schema
+    shares its derived type name with ANOTHER inline object schema of a property of the same name; typify's
+    assign_type reuses the first type by name, so the value is checked against the other schema - under which it is
+    valid"""
+    if not path or not isinstance(path[-1], str) or not isinstance(ps, dict) or "$ref" in ps:
+        return False
+    others = [o for o in inline_objects_by_key(doc).get(path[-1], []) if o != ps]
+    if not others:
+        return False
+    verd = oracle.classify([(doc, [(o, pv) for o in others])])[0]
+    return any(x is True for x in verd)
 
 
 # ---------------------------------------------------------------------------
@@ -1079,6 +1204,8 @@ def run(ctx):
             cc.append(("replay", c))
     cc += default_cases(ctx.seed, 10 if quick else 40)
     cc += float_cases(ctx.seed, 4 if quick else 16)
+    cc += enum_corpus()
+    cc += enum_cases(ctx.seed, 4 if quick else 16)
     cc += merge_corpus(full=not quick)
     cc += merge_cases(ctx.seed, 4 if quick else 16)
     ccases = [{"settings": c.get("settings", {}), "steps": [{"op": "refs", "defs": c["defs"]}]} for _, c in cc]
@@ -1264,8 +1391,8 @@ def run(ctx):
 
     # ---------------- (d) agreement clause
     try:
-        n1, bad1, miss1, nt1 = agreement(ctx, w, range(len(ex.docs)))
-        n2, bad2, miss2, nt2 = agreement(ctx, cw, range(len(cc)))
+        n1, bad1, miss1, nt1 = agreement(ctx, w, range(len(ex.docs)), lambda i: ex.docs[i]["definitions"])
+        n2, bad2, miss2, nt2 = agreement(ctx, cw, range(len(cc)), lambda i: cc[i][1]["defs"])
         ctx.evaluations += n1 + n2
         ctx.coverage["agreement_comparisons"] = n1 + n2
         ctx.coverage["agreement_types"] = {k: nt1.get(k, 0) + nt2.get(k, 0) for k in set(nt1) | set(nt2)}
@@ -1323,8 +1450,10 @@ def run(ctx):
             continue
         if v.get("kind") == "invalid-instance-accepted":
             doc = v["document"]
-            ps, pv, opt = resolve_position(doc, {"$ref": "#/definitions/" + v["definition"]}, v["instance"])
+            ps, pv, opt, ppath = resolve_position(doc, {"$ref": "#/definitions/" + v["definition"]}, v["instance"])
             v["position_schema"], v["position_value"], v["position_is_optional_member"] = ps, pv, opt
+            v["position_path"] = list(ppath)
+            v["position_name_reuse"] = any(name_reuse(doc, s2, v2, p2) for p2, s2, v2 in list(REJECTED_POSITIONS))
             # quantifier rule: a string position whose schema carries a `format` outside typify's recognised
             # table together with length / pattern keywords is not "built from enforced constructs" (typify
             # keeps a plain String there and drops the keywords)
